@@ -351,6 +351,41 @@ def cfgs(tier):
     for aw, digits in ([(4, 2), (7, 3), (8, 3), (8, 2)] if quick else [(4, 2), (7, 3), (8, 3), (8, 2), (10, 4), (12, 4), (4, 1)]):
         yield 'BinaryToBCD a%d digits%d' % (aw, digits), bcd_cfg(aw, digits)
 
+    # ---- wide data paths: beyond the 53-bit mantissa of a double and beyond one 64-bit machine word ("every legal combination of
+    # port widths"); no dividers here (probed too slow), products share their multiplication node with the oracle
+    for w in ([64] if quick else [54, 64, 65, 100]):
+        for ci in (0, 1):
+            for co in (0, 1):
+                yield 'Add a%d b%d r%d ci%d co%d' % (w, w, w, ci, co), add_cfg(w, w, w, ci, co)
+        yield 'Add a%d b%d r%d ci0 co0' % (w, w - 9, w + 1), add_cfg(w, w - 9, w + 1, 0, 0)
+        yield 'Sub a%d b%d r%d' % (w, w, w), bin_cfg(Sub, w, w, w, f_sub)
+        yield 'SubBorrowIn a%d b%d r%d' % (w, w, w), subbi_cfg(w, w, w)
+        yield 'Mul a%d b%d r%d' % (w, w, w), bin_cfg(Mul, w, w, w, f_mul)
+        yield 'Mul a%d b%d r%d' % (w, w, 2 * w), bin_cfg(Mul, w, w, 2 * w, f_mul)
+        # SignedMul at these widths: probed, not decided within the budget (the implementation's sign handling is an if/else on the
+        # operand's top bit, the oracle a sign extension: no shared product node) -- outside the claim, widths <= 12 (+16/24/32) only
+        yield 'SignedAdd a%d b%d r%d' % (w, w - 9, w + 1), bin_cfg(SignedAdd, w, w - 9, w + 1, f_sadd)
+        yield 'SignedSub a%d b%d r%d' % (w - 9, w, w + 1), bin_cfg(SignedSub, w - 9, w, w + 1, f_ssub)
+        for aw, rw in ((w, w), (w - 9, w), (w, w + 3)):
+            yield 'Neg a%d r%d' % (aw, rw), un_cfg(Neg, aw, rw, f_neg)
+            yield 'Abs a%d r%d' % (aw, rw), un_cfg(Abs, aw, rw, f_abs)
+            yield 'SignExtend a%d r%d' % (aw, rw), un_cfg(SignExtend, aw, rw, f_sext)
+            yield 'ZeroExtend a%d r%d' % (aw, rw), un_cfg(ZeroExtend, aw, rw, f_zext)
+        yield 'Abs+inverted a%d' % w, abs_inv_cfg(w)
+        yield 'Sign a%d' % w, sign_cfg(w)
+        for n in (1, 31, 53, w - 1, w):
+            yield 'ShiftLeftConstant a%d r%d n%d' % (w, w, n), shk_cfg(ShiftLeftConstant, w, w, n, f_shl)
+            yield 'ShiftRightConstant a%d r%d n%d' % (w, w, n), shk_cfg(ShiftRightConstant, w, w, n, f_shr)
+            yield 'RotateLeftConstant a%d r%d n%d' % (w, w, n), shk_cfg(RotateLeftConstant, w, w, n, f_rotl)
+            yield 'RotateRightConstant a%d r%d n%d' % (w, w, n), shk_cfg(RotateRightConstant, w, w, n, f_rotr)
+        bw = 7
+        yield 'ShiftLeft a%d b%d r%d' % (w, bw, w), shv_cfg('shl', w, bw, w)
+        yield 'ShiftRight a%d b%d r%d logical' % (w, bw, w), shv_cfg('shr', w, bw, w, arith=False)
+        yield 'ShiftRight a%d b%d r%d arithmetic' % (w, bw, w), shv_cfg('shr', w, bw, w, arith=True)
+        yield 'RotateLeft a%d b%d' % (w, 6), shv_cfg('rotl', w, 6, w)
+        yield 'RotateRight a%d b%d' % (w, 6), shv_cfg('rotr', w, 6, w)
+        yield 'CountLeadingZeros a%d r%d' % (w, 8), clz_cfg(w, 8)
+
 
 def main(argv=None):
     args = common.parse_args(PROP, argv)
